@@ -1,6 +1,9 @@
 package generator
 
-import "strings"
+import (
+	"strconv"
+	"strings"
+)
 
 func (g *Generator) ClientFile(cfg Config) GoFile {
 	return GoFile{
@@ -50,10 +53,11 @@ func (g *Generator) SpecFile(fileContent []byte) GoFile {
 }
 
 func encodeRawFileAsString(s string) string {
-	if strings.Contains(string(s), "\n") {
-		s = "`" + strings.ReplaceAll(string(s), "`", "`+\"`\"+`") + "`"
-	} else {
-		s = `"` + strings.ReplaceAll(string(s), `"`, `\"`) + `"`
+	// A raw string literal cannot hold a carriage return (the compiler drops
+	// it), a byte order mark or a NUL; everything else but the back quote is
+	// kept verbatim. Any other content goes through strconv.Quote.
+	if strings.Contains(s, "\n") && !strings.ContainsAny(s, "\r\ufeff\x00") {
+		return "`" + strings.ReplaceAll(s, "`", "`+\"`\"+`") + "`"
 	}
-	return s
+	return strconv.Quote(s)
 }
